@@ -68,4 +68,6 @@ SILENT_EDITS = [   # behaviour-preserving, reported nothing new
 
 def run(ctx):
     from ..rules import cfgjump
-    return [pC21.rule_abstract_handlers(ctx), pC21.rule_visitor_state(ctx), pC21.rule_lattice(ctx), pC21.rule_defaults_guards(ctx), pC21.rule_infer(ctx), cfgjump.rule_jump(ctx)]
+    from ..rules import sC21
+    return [pC21.rule_abstract_handlers(ctx), pC21.rule_visitor_state(ctx), pC21.rule_lattice(ctx), pC21.rule_defaults_guards(ctx), pC21.rule_infer(ctx), cfgjump.rule_jump(ctx),
+            sC21.rule_loopvar(ctx)]
